@@ -1,4 +1,13 @@
 import GoImap.Props.C08
 #print axioms GoImap.C08.no_expunge_in_poll
+#print axioms GoImap.C08.oracle_accepts
+#print axioms GoImap.C08.reach_inv
+#print axioms GoImap.C08.no_panic
+#print axioms GoImap.C08.response_accepted
+#print axioms GoImap.C08.in_range
+#print axioms GoImap.C08.no_expunge_in
+#print axioms GoImap.C08.shrink_only_by_expunge
+#print axioms GoImap.C08.noop_sync
+#print axioms GoImap.C08.each_removed_once
 #print axioms GoImap.C08.legacy_move_counterexample
 #print axioms GoImap.C08.legacy_fetch_counterexample
